@@ -9,6 +9,7 @@ Odeint: rendered naunet.cpp + naunet_ode.cpp against a Boost stand-in whose inte
 observer a scripted number of times.  cuSPARSE (no nvcc here): rendered text only."""
 import itertools
 import math
+import os
 import random
 import re
 import subprocess
@@ -227,19 +228,27 @@ def check_cusparse_text(res, model):
     ol.cleanup_scratch()
 
 
-def check_cusparse_exec(res, model, scripts):
+def network_thermal():
+    """a network with a temperature equation: NEQUATIONS = NSPECIES + 1"""
+    reset_globals()
+    return Network(reactions=[Reaction(["H", "e-"], ["H+", "e-", "e-"], -1.0, -1.0, 1e-10, 0.0, 0.0, ReactionType.GAS_TWOBODY, idxfromfile=0)],
+                   cooling=["CIC_HI"])
+
+
+def check_cusparse_exec(res, model, scripts, thermal=False):
     """channel C for the cuSPARSE variant: the rendered naunet.cpp (gpu) compiled for the host against the CUDA stand-in header and the
     scripted mock CVode, one system.  The same oracle as for dense / sparse; the executed form of the recorded finding
     C19-cusparse-ignores-failure (a failing CVode, Solve returns success) carries the finding id, anything else does not."""
     d = ol.scratch_dir()
     tl = TemplateLoader("cvode", "cusparse", "gpu")
     with quiet():
-        tl.render("naunet", network(), path=d, save=True)
+        tl.render("naunet", network_thermal() if thermal else network(), path=d, save=True)
     src = next(d.glob("src/naunet.c*"))
     exe = d / "mock"
-    r = subprocess.run(["g++", "-std=c++17", "-O0", "-w", "-x", "c++", "-DUSE_CUDA", "-DMOCK_CUDA", "-D__global__=", "-D__device__=", "-D__host__=", "-D__constant__=",
+    r = subprocess.run(["g++", "-std=c++17", "-O0", "-w", "-x", "c++", "-DUSE_CUDA", "-DMOCK_CUDA", "-no-pie", "-Wl,--unresolved-symbols=ignore-all", "-D__global__=", "-D__device__=", "-D__host__=", "-D__constant__=",
                         "-include", str(CXX / "cuda" / "cuda_shim.h"), "-I", str(CXX / "cuda"), "-I", str(CXX / "sundials"), "-I", str(d / "include"),
-                        "-o", str(exe), str(src), str(CXX / "mock_cvode.cpp")], stdout=subprocess.PIPE, stderr=subprocess.STDOUT, text=True)
+                        "-o", str(exe), str(src), *[str(f) for f in sorted(d.glob("src/naunet_renorm.c*")) + sorted(d.glob("src/naunet_physics.c*"))],
+                        str(CXX / "mock_cvode.cpp")], stdout=subprocess.PIPE, stderr=subprocess.STDOUT, text=True)
     if r.returncode != 0:
         res.corr_disagreements += 1
         res.violation("correspondence", f"rendered cvode/cusparse naunet.cpp does not compile for the host against the CUDA stand-in: {r.stdout[-600:]}", {"method": "cusparse"})
@@ -282,7 +291,22 @@ def check_cusparse_exec(res, model, scripts):
             res.violation("oracle", f"cusparse (executed): a batch of {nsys} systems with distinct states, no integrator failure: Solve returns {flag} and (final - start - dt) "
                                     f"ranges over [{lo!r}, {hi!r}]: not every system advanced from its own state by 100.0", case)
     # Reset to another batch size, then Solve again
-    for n1, n2 in ((3, 7), (7, 3), (1, 5), (64, 2)):
+    # illegal tolerances: the integrator rejects them and refuses to run; a successful return would mean nothing was integrated
+    case = {"kind": "c19", "method": "cusparse", "script": "", "dt": 100.0, "y0": 5.0, "rtol": -1e-5}
+    r_ = subprocess.run([str(exe), "", repr(100.0), repr(5.0)], cwd=str(d), stdout=subprocess.PIPE, stderr=subprocess.STDOUT, text=True, timeout=60,
+                        env=dict(os.environ, MOCK_RTOL="-1e-5"))
+    out = r_.stdout.split()
+    if out[:1] == ["init-failed"]:
+        res.count("method=cusparse (executed, illegal tolerance refused by Init)")
+    elif len(out) == 6:
+        res.count("method=cusparse (executed, illegal tolerance)")
+        if int(out[0]) == 0 and abs(float(out[1]) - 105.0) > 1e-9:
+            res.violation("oracle", f"cusparse (executed): a negative relative tolerance is rejected by the integrator, which then refuses to run, yet Solve returns success "
+                                    f"with the state advanced by {float(out[1]) - 5.0!r} instead of 100.0", case)
+    else:
+        res.corr_disagreements += 1
+        res.violation("correspondence", f"cusparse: run with an illegal tolerance produced {out}", case)
+    for n1, n2 in ((3, 7), (7, 3), (1, 5), (64, 2), (3, 4100), (4100, 6000)):
         case = {"kind": "c19", "method": "cusparse", "script": "", "dt": 100.0, "y0": 5.0, "nsystem": n1, "reset_to": n2}
         out = run_bin(exe, d, "", repr(100.0), repr(5.0), n1, n2)
         try:
@@ -313,6 +337,7 @@ def run(res, info):
     check_odeint(res, model)
     check_cusparse_text(res, model)
     check_cusparse_exec(res, model, scripts[:40] if res.tier == 'quick' else scripts[:400])
+    check_cusparse_exec(res, model, scripts[:10] if res.tier == 'quick' else scripts[:100], thermal=True)
     if model:
         model.close()
 
